@@ -193,3 +193,41 @@ Proof.
     assert (E3 : Rltb (0 * 1 + 1) (1 / 100) = false) by (apply Rltb_false; lra). rewrite E3.
     cbn. lra.
 Qed.
+
+(** Observation: on a flushed step the bed store has already been updated but the
+    output loadDeposited is not written (stays 0); the budget theorems therefore take
+    the deposit from the change of the bed store, not from that output. *)
+Lemma pn_deposit_unreported_on_flushed_step :
+  exists x : pn_inR, pn_in_nonneg x /\
+    po_loadDeposited (snd (Rpn_step 0 0 1 (100, 0) x)) = 0 /\
+    po_bedExchange (snd (Rpn_step 0 0 1 (100, 0) x)) = 50.
+Proof.
+  exists (mk_pn_in 0 0 0 0 0 0 0 (1 / 2)). split.
+  - unfold pn_in_nonneg; cbn; lra.
+  - unfold pn_step. runfold. cbn.
+    assert (E0 : Rltb 0 0 = false) by (apply Rltb_false; lra). rewrite E0.
+    assert (E1 : Rltb (100 + 0 * 1) 0 = false) by (apply Rltb_false; lra). rewrite E1.
+    assert (E2 : Rleb 0 (1 / 2) = true) by (apply Rleb_true; lra). rewrite E2.
+    assert (E3 : Rltb (0 * 1 + 0) (1 / 100) = true) by (apply Rltb_true; lra). rewrite E3.
+    cbn. split; [reflexivity|].
+    replace (Rmin (Rmax 0 0) 1) with 0 by (rewrite Rmax_left, Rmin_left; lra).
+    rewrite Rmin_left; lra.
+Qed.
+
+(** non-vacuity: a deposition step (signal 1/2 of 100 kg, no floodplain) in 1 m3 + 1 m3 released *)
+Example pn_deposition_example :
+  let r := Rpn_step 0 0 1 (100, 0) (mk_pn_in 0 0 1 1 0 0 0 (1 / 2)) in
+  fst r = (25, 50) /\ po_loadDownstream (snd r) = 25 /\ po_loadDeposited (snd r) = 50 /\ po_flushed (snd r) = 0.
+Proof.
+  cbn zeta. unfold pn_step. runfold. cbn.
+  assert (E0 : Rltb 0 0 = false) by (apply Rltb_false; lra). rewrite E0.
+  assert (E1 : Rltb (100 + 0 * 1) 0 = false) by (apply Rltb_false; lra). rewrite E1.
+  assert (E2 : Rleb 0 (1 / 2) = true) by (apply Rleb_true; lra). rewrite E2.
+  assert (E3 : Rltb (1 * 1 + 1) (1 / 100) = false) by (apply Rltb_false; lra). rewrite E3.
+  cbn.
+  replace (Rmin (Rmax 0 0) 1) with 0 by (rewrite Rmax_left, Rmin_left; lra).
+  assert (E4 : Rmin (1 / 2 * (100 + 0 * 1 + 0 * 0 * 1 * (0 / 100)))
+                 (100 + 0 * 1 + 0 * 0 * 1 * (0 / 100) - 0 * (100 + 0 * 1 + 0 * 0 * 1 * (0 / 100))) = 50).
+  { rewrite Rmin_left; lra. }
+  rewrite E4. repeat split; try lra; try field. f_equal; field.
+Qed.
